@@ -63,6 +63,7 @@ typedef struct {
   double impulse_block_bias;/* NaN-free: 0 => untouched, else set */
   int have_rm2; double rm2_reservoir_bits_secs; double rm2_bias; double rm2_damping; /* RATEMANAGE2 override */
   int refused_wrote;        /* k>0: before the k-th accepted vorbis_analysis_wrote, report far more samples than were requested (must be refused with OV_EINVAL and change nothing) */
+  int direct_probe;         /* managed streams: every 3rd block is first offered to vorbis_analysis(vb,&op), which must refuse it (OV_EINVAL) and leave the block fit for addblock/flushpacket */
   int rm2_disable;          /* ENC_MANAGED only: after vorbis_encode_setup_managed, switch management off again through OV_ECTL_RATEMANAGE2_SET(NULL): the stream must then be plain VBR */
   int rm2_avg_off; long rm2_max_kbps;   /* with have_rm2: switch average tracking off / set the hard maximum through the control interface (0: untouched) */
   int sig; uint64_t sigseed; long nsamples;
@@ -75,7 +76,7 @@ typedef struct {
   pktlist_t pk;             /* pk.v[0..2] headers, then audio */
   int channels; long rate; long bs0, bs1;
   long bitrate_upper, bitrate_nominal, bitrate_lower, bitrate_window;
-  long ncalls_wrote; long nsubmitted; int refused_wrote_ret /* what the over-long report returned (0 if none was made) */; long wrote_errors /* correct reports that were refused */;
+  long direct_probe_bad /* vorbis_analysis(vb,&op) on a managed stream did not answer OV_EINVAL */; long ncalls_wrote; long nsubmitted; int refused_wrote_ret /* what the over-long report returned (0 if none was made) */; long wrote_errors /* correct reports that were refused */;
   /* managed settings read back through RATEMANAGE2_GET (valid if managed) */
   int managed; long rm_min_kbps_x1000, rm_max_kbps_x1000, rm_avg; double rm_reservoir_bits, rm_bias;
 } encres_t;
